@@ -92,12 +92,15 @@ def apply(tree, funcs, family):
                     # skip occurrences directly surrounded by quotes)
                     if n == qn.split('::')[-1]:
                         continue
+                    if re.search(r'(?<![\w.>])%s\s*[*&]?\s+\*?\s*[A-Za-z_]\w*\s*(=|;|,|\))' % re.escape(n), text) or \
+                            re.search(r'\b%s\s*[*&]' % re.escape(n), text) and re.search(r'\b%s\s*\*\s*\w+\s*=' % re.escape(n), text):
+                        continue  # the name is also used as a type name in this function
                     text, k = re.subn(r'(?<![\w.>":])(?<!->)%s(?![\w"])' % re.escape(n), n + '_rn', text)
                     changed += k
             elif family == 'mirror':
                 def sw(m):
                     return '%s %s %s' % (m.group(3), m.group(2), m.group(1))
-                text, k = re.subn(r'(?<![\w*&.>\]\)])(?<!->)([A-Za-z_]\w*(?:\[\d\])?)\s*(==|!=)\s*(0x[0-9a-fA-F]+|\d+|[A-Z][A-Z0-9_]{2,}|nullptr)\b(?!\s*[\(\[])',
+                text, k = re.subn(r'(?<![\w*&.>\]\)+\-!~])(?<!->)([A-Za-z_]\w*(?:\[\d\])?)\s*(==|!=)\s*(0x[0-9a-fA-F]+|\d+|[A-Z][A-Z0-9_]{2,}|nullptr)\b(?!\s*[\(\[.])(?![.\w])',
                                   sw, text)
                 changed += k
             elif family == 'noise':
